@@ -25,6 +25,7 @@ import (
 	"encoding/hex"
 	"fmt"
 	"math"
+	"reflect"
 	"strconv"
 	"strings"
 	"time"
@@ -287,11 +288,19 @@ func ElementAtFunc(query *Query, current Map, functionOptions *FunctionOptions, 
 	if err != nil {
 		return nil, err
 	}
-	indexRaw, err := AsType[float64](args[1])
-	if err != nil {
-		return nil, err
+	// the index is a number: a double, or an integer of any Go type (what
+	// CHANGETYPE(x, 'integer') yields, or a document built in Go holds)
+	var index int
+	switch number := reflect.ValueOf(args[1]); number.Kind() {
+	case reflect.Float32, reflect.Float64:
+		index = int(number.Float())
+	case reflect.Int, reflect.Int8, reflect.Int16, reflect.Int32, reflect.Int64:
+		index = int(number.Int())
+	case reflect.Uint, reflect.Uint8, reflect.Uint16, reflect.Uint32, reflect.Uint64:
+		index = int(number.Uint())
+	default:
+		return nil, INVALID_CAST
 	}
-	index := int(*indexRaw)
 	if len(*slice) > index {
 		return (*slice)[index], nil
 	}
